@@ -93,6 +93,13 @@ def gen_requests(ctx, res):
     u8l = ['é', 'éé\n', '中', 'a中é\n', '😀', 'x😀é中\n', 'éa', '中中', 'é\n']
     for k, q in enumerate(u8p):
         out.append(('utf8', k & 1, 3, [q.encode()], cases_for(k, [l.encode() for l in u8l])))
+    # ill-formed PATTERN bytes (stray continuation byte / truncated lead byte as the first literal) against VALID multi-byte
+    # lines that contain those bytes inside a character, case sensitive and ignore-case; and multi-byte literals directly
+    # before a repetition operator against lines with characters that share the lead byte(s)
+    for k, e in enumerate(relib.gen_stray(rng, 200 if ctx.quick else 2000)):
+        out.append(('stray-cont' if e['cont'] else 'stray-lead', k & 1 if k % 4 == 3 else 0, 3, e['pats'], cases_for(k, e['lines'])))
+    for k, e in enumerate(relib.gen_mbrep(rng, 200 if ctx.quick else 2000)):
+        out.append(('mbrep', k & 1, 3, e['pats'], cases_for(k, e['lines'])))
     res.extra['pattern_alphabet'] = b' '.join(ALPHA).decode()
     res.extra['exhaustive_length'] = L
     return out
@@ -117,6 +124,11 @@ def oracle_case(pats, line, c, single):
     n = len(line)
     ok8 = relib.valid_utf8(line) and all(relib.valid_utf8(p) for p in pats)
     bnd = set(relib.boundaries(line)) if ok8 else None
+    # whatever bytes the PATTERN consists of: start positions are character starts of a valid UTF-8 line
+    # (regexec steps by uc_len; C11_match_starts_on_boundary), so the match never begins inside a character
+    if relib.valid_utf8(line) and c['g'] and c['g'][0][0] >= 0 and c['g'][0][0] not in set(relib.boundaries(line)):
+        return ('the match starts at byte %d, inside a multi-byte character of the valid UTF-8 line (start positions are character starts, '
+                'whatever bytes the pattern consists of)' % c['g'][0][0])
     for i, (so, eo) in enumerate(c['g']):
         if (so, eo) == (-1, -1):
             continue
@@ -253,6 +265,9 @@ def run_sequences(ctx, res, probe, probe_asan, model, env, sessions=None, ex_scr
             res.sample({'replayed_ex_script': r.get('script_text'), 'buffer': (out.files.get('f') or b'').decode('utf-8', 'replace')})
     if scripts:
         relib.check_ex_sequences(res, vi, probe, model, scripts, env=env)
+    if ex_scripts is None:
+        # ill-formed pattern bytes / multi-byte literals before a repetition operator, on valid UTF-8 buffers (se noic and se ic)
+        relib.check_ex_utf8(res, vi, model, relib.gen_ex_utf8(ctx.rng.fork('C11-ex-utf8'), 40 if ctx.quick else 400), env=env)
 
 
 def run(ctx):
